@@ -194,4 +194,6 @@ pub fn run(out: &mut Out, tier: &str, seed: u64) {
     crate::objapi::kx(out, &mut rng);
     #[cfg(feature = "nightly")]
     crate::c18::containers(out, &mut rng, false);
+    crate::objapi::seeded_object_keys(out, &mut rng);
+    crate::consts::check(out, &["CRYPTO_KX", "CRYPTO_SCALARMULT"]);
 }
